@@ -2,8 +2,10 @@ package sim
 
 import (
 	"fmt"
+	"strings"
 	"sync"
 	"testing/synctest"
+	"unsafe"
 
 	"github.com/ory/keto/verifsim/simlock"
 )
@@ -34,6 +36,8 @@ type LockSched struct {
 	Deadlock                         bool
 	DeadlockSites                    []string
 	clock                            int // logical clock for history stamps
+	waitingWriters                   map[string]int
+	ReadersBehindWriter              int
 }
 
 type lockWaiter struct {
@@ -66,17 +70,64 @@ func (s *LockSched) park(site string, blocked bool) {
 // Yield is a scheduling point of scenario code.
 func (s *LockSched) Yield(site string) { s.park(site, false) }
 
+// acquire models sync.RWMutex's writer preference as well: from the moment a
+// Lock() call waits, RLock() calls on the same mutex wait behind it (which is
+// what turns a read lock taken twice by one goroutine into a deadlock when a
+// writer arrives in between). The waiting writer is only known to the scheduler
+// - it never blocks inside the real mutex - so readers consult the scheduler's
+// book of waiting writers before they try.
 func (s *LockSched) acquire(site string, try func() bool, _ func()) {
 	s.park(site, false)
-	for !try() {
+	key := lockKey(site, try)
+	write := strings.HasSuffix(site, ":Lock")
+	read := strings.HasSuffix(site, ":RLock")
+	waiting := false
+	for {
+		s.mu.Lock()
+		behindWriter := read && s.waitingWriters[key] > 0
+		s.mu.Unlock()
+		if !behindWriter && try() {
+			break
+		}
 		s.mu.Lock()
 		s.Contended++
+		if behindWriter {
+			s.ReadersBehindWriter++
+		}
+		if write && !waiting {
+			if s.waitingWriters == nil {
+				s.waitingWriters = map[string]int{}
+			}
+			s.waitingWriters[key]++
+			waiting = true
+		}
 		s.mu.Unlock()
 		s.park(site, true)
 	}
 	s.mu.Lock()
+	if waiting {
+		s.waitingWriters[key]--
+	}
 	s.Acquired++
 	s.mu.Unlock()
+}
+
+// lockKey identifies the mutex of a rewritten call X.Lock(): the receiver bound
+// into the method value X.TryLock (a method value is a pointer to a closure
+// object {code, receiver}) together with the source file of the call. Two
+// different mutexes never share a key unless one struct holds both at offset 0
+// and embedded (keto has no such struct); one mutex used from two files has two
+// keys, which only means that writer preference is not modelled across them.
+func lockKey(site string, try func() bool) string {
+	file := site
+	if i := strings.Index(site, ":"); i > 0 {
+		file = site[:i]
+	}
+	var recv uintptr
+	if p := *(*unsafe.Pointer)(unsafe.Pointer(&try)); p != nil {
+		recv = (*[2]uintptr)(p)[1]
+	}
+	return fmt.Sprintf("%s@%x", file, recv)
 }
 
 func (s *LockSched) released(site string) {
